@@ -99,6 +99,12 @@ func init() {
 			fr.i.ex.symMapOrder = args[0].(bool)
 			return nil
 		},
+		symxPath + ".MapOrderOpts": func(fr *frame, args []value) value {
+			ex := fr.i.ex
+			ex.mapOrderMin, ex.mapOrderFull, ex.mapOrderSticky = int(args[0].(int)), int(args[1].(int)), args[2].(bool)
+			ex.notes = append(ex.notes, fmt.Sprintf("map iteration order: maps of >= %d entries, all permutations up to %d entries (identity, reversal, rotations above), sticky per map object = %v", ex.mapOrderMin, ex.mapOrderFull, ex.mapOrderSticky))
+			return nil
+		},
 		symxPath + ".IntOfLit":   symxIntOfLit,
 		symxPath + ".BytesOfLit": symxBytesOfLit,
 		symxPath + ".Digest":     symxDigest,
@@ -354,6 +360,8 @@ func init() {
 		"(*strings.Builder).copyCheck": extNop,
 		"strings.Clone":              func(fr *frame, args []value) value { return args[0] },
 		"internal/stringslite.Clone": func(fr *frame, args []value) value { return args[0] },
+		"sort.Slice":       extSortSlice,
+		"sort.SliceStable": extSortSlice,
 		"reflect.TypeFor": func(fr *frame, args []value) value {
 			return makeReflectType(rtype{fr.fn.TypeArgs()[0]})
 		},
@@ -1369,4 +1377,34 @@ func errorsIs(fr *frame, args []value) value {
 		err = next
 	}
 	return false
+}
+
+// extSortSlice is sort.Slice/SliceStable (the real ones go through reflectlite's
+// swapper): a stable insertion sort that calls the interpreted less function; a
+// symbolic comparison result forks like any branch.
+func extSortSlice(fr *frame, args []value) value {
+	var x []value
+	switch a := args[0].(type) {
+	case iface:
+		x, _ = a.v.([]value)
+	case []value:
+		x = a
+	}
+	less := func(a, b int) bool {
+		r := call(fr.i, fr, 0, args[1], []value{a, b})
+		switch r := r.(type) {
+		case bool:
+			return r
+		case sym:
+			return fr.i.ex.branch(r.t)
+		}
+		unmodelled("sort.Slice: less returned an unexpected value")
+		return false
+	}
+	for a := 1; a < len(x); a++ {
+		for b := a; b > 0 && less(b, b-1); b-- {
+			x[b], x[b-1] = x[b-1], x[b]
+		}
+	}
+	return nil
 }
